@@ -6,12 +6,14 @@ import z3
 from pyvc.sym import SInt, ctx, lift
 from pyvc.nodes import Contract, is_abs, band, bor, bnot, implies, fall
 from pyvc.engine import Harness
+from pyvc.folds import unwrap
 from .common import (new_base, new_family, child_invariants, env_total_in_bounds, mk_atleast, cur_env, AbsEnv, Bo,
                      concretise_children, build_children, set_native_env, _mv)
 from .specs import truth, solver_safe, is_variable, is_variable_t
 
 
 def boolean_leaves(node):
+    node = unwrap(node)
     if is_abs(node):
         atom = node.atom_truth()
         return bor(band(atom, node.sym("lo") == 0, node.sym("hi") == 1), band(bnot(atom), node.sym_bool("boolleaves")))
